@@ -9,9 +9,11 @@ package cpusuppress
 import (
 	"fmt"
 	"math"
+	"runtime/debug"
 	"sort"
 	"strconv"
 	"strings"
+	"sync/atomic"
 
 	topov1alpha1 "github.com/k8stopologyawareschedwg/noderesourcetopology-api/pkg/apis/topology/v1alpha1"
 	corev1 "k8s.io/api/core/v1"
@@ -452,6 +454,23 @@ func c10PanicHead(ps string) string {
 		}
 	}
 	return strings.Join(keep, " | ")
+}
+
+// c10Guard is mc.Guard with a cheap path: only the first few panics of a run pay for a full stack trace (the
+// degenerate members panic by the hundred thousand while a crash defect is open).
+var c10Stacks atomic.Int64
+
+func c10Guard(f func()) (ps string) {
+	defer func() {
+		if r := recover(); r != nil {
+			ps = fmt.Sprintf("panic: %v", r)
+			if c10Stacks.Add(1) <= 16 {
+				ps += "\n" + string(debug.Stack())
+			}
+		}
+	}()
+	f()
+	return ""
 }
 
 func c10CeilDiv1000(milli int64) int64 {
